@@ -707,6 +707,10 @@ func (e *Engine) verdict(extra *Term, kind string) (Result, map[string]uint64, s
 		names := []string{"z3-new", "z3", "cvc5", "cvc5-int"}
 		var disagree bool
 		r, m, backend, disagree = Portfolio(script, e.job.VerdictTimeout, e.stats, kind+"-portfolio", names, false)
+		if r == Unknown {
+			// one patient retry: wall-clock timeouts say little on a loaded machine
+			r, m, backend, disagree = Portfolio(script, 4*e.job.VerdictTimeout, e.stats, kind+"-portfolio-retry", names, false)
+		}
 		_ = disagree
 	} else if cross {
 		// independent second opinion
